@@ -27,7 +27,8 @@ def _worker(args):
         limits = getattr(vc, "limits", {}).get(tier, {})
         r = run_vc(prog, M, vc, bounds=getattr(vc, "bounds", {}).get(tier) if isinstance(getattr(vc, "bounds", None), dict) else None,
                    path_limit=limits.get("paths", 200000), query_timeout_ms=limits.get("query_ms", 20000 if tier == "quick" else 120000),
-                   time_limit=limits.get("time", None), validate=int(os.environ.get("VERIF_VALIDATE", "2" if tier == "quick" else "10")))
+                   time_limit=limits.get("time", None), validate=int(os.environ.get("VERIF_VALIDATE", "2" if tier == "quick" else "10")),
+                   second_solver=(tier == "thorough" and getattr(spec, "SECOND_SOLVER", False)))
         out = {
             "vc": vc.name, "paths": r.paths, "infeasible": r.infeasible, "outcomes": {str(k): v for k, v in r.outcomes.items()},
             "queries": r.queries, "unsupported": [u[0] for u in r.unsupported[:5]], "n_unsupported": len(r.unsupported),
@@ -35,7 +36,7 @@ def _worker(args):
             "wall": round(r.wall, 3), "truncated": r.truncated, "samples": r.samples, "obligations": sorted(r.obligation_names),
             "funcs": sorted(f"{c}::{n}" for c, n in r.funcs), "models": sorted(r.models),
             "func_hashes": {f"{c}::{n}": prog.func_hash(prog.funcs[c][n]) for c, n in r.funcs if n in prog.funcs.get(c, {})},
-            "violations": [], "known": [], "validated": r.validated, "validation_failures": r.validation_failures[:3],
+            "violations": [], "known": [], "validated": r.validated, "validation_failures": r.validation_failures[:3], "second_solver": r.second,
         }
         out["violations"], out["known"], out["inconclusive"] = findings.triage(prog, M, vc, r, tier)
         return out
